@@ -41,6 +41,10 @@ THE SOFTWARE.
 #include <amgcl/util.hpp>
 #include <amgcl/relaxation/detail/ilu_solve.hpp>
 
+#ifdef AMGCL_VERIF
+namespace amgcl_verif { struct access; }
+#endif
+
 namespace amgcl {
 namespace relaxation {
 
@@ -189,6 +193,9 @@ struct iluk {
     }
 
     private:
+#ifdef AMGCL_VERIF
+        friend struct ::amgcl_verif::access;
+#endif
         std::shared_ptr<ilu_solve> ilu;
 
         struct nonzero {
